@@ -78,6 +78,12 @@ def c07_chain(rng):
         base["e"] = {"$encode": rng.pick(["json", "base64", "yaml"]), "v": rng.pick(STRAY + ["ok"]), "w": 1}
     elif k == 2:
         base["e"] = [rng.pick(STRAY + ["ok"]), 1, {"$encode": "join:,"}]
+    elif k == 3:
+        # hidden material inside an $encode input: still validated before encoding
+        base["e"] = {"$encode": rng.pick(["json", "yaml", "base64"]), "listen": ":80",
+                     "base": {"$output": False, "token": rng.pick(STRAY + ["ok"])}}
+    elif k == 4:
+        base["e"] = [{"$encode": rng.pick(["join:,", "json"])}, {"$output": False}, rng.pick(STRAY + ["ok"]), "x"]
     layers = [base]
     cur = base
     for _ in range(n - 1):
